@@ -2,15 +2,15 @@ import GardenVerif.Lemmas.Session
 /-!
 # C10 — `:abort` returns the session to a clean top level
 
-Statements over the session model M6 for the code produced by patch
-`session-fix-abort-clears-pending` (`Cfg.patched`: `Stack::pop_to_toplevel` also clears frame 0's
-`exprs_to_eval`). `abort st` is the state after the `:abort` command (`Session.handleCommand … .abort`
+Statements over the session model M6 for /repo HEAD (`Cfg.patched`: `Stack::pop_to_toplevel` also
+clears frame 0's `exprs_to_eval`, commit "fix: :abort also drops the toplevel frame's pending
+expressions"). `abort st` is the state after the `:abort` command (`Session.handleCommand … .abort`
 = `pop_to_toplevel` + the "Aborted" response).
 
 `BottomOK st` is what `Env::new` establishes for the bottom frame and nothing in the session layer
 changes: it is the toplevel frame created by `Stack::new` (kind toplevel, no caller, no bindings
 waiting for a block), its oldest value is the placeholder `Unit`, it has at least one binding block.
-(The patched `:replace` never pops a frame's last value; HEAD's does — `pinned_replace_pops_base`.)
+(`:replace` never pops a frame's last value; before its fix it did — `C09.pinned_replace_pops_base`.)
 
 * `abort_clean`: one frame, nothing pending, value stack = the single base `Unit`, one binding block.
 * `abort_equiv_fresh`: the aborted session IS the fresh session holding the same definitions, tests
@@ -19,7 +19,7 @@ waiting for a block), its oldest value is the placeholder `Unit`, it has at leas
   same responses (`abort_same_responses`, any request list, any fuel).
 * `nothing_leftover`: no frame, pending entry, value or binding block of the aborted evaluation is
   reachable: variable lookup sees exactly the toplevel variables.
-On HEAD the pending entries of frame 0 survive (`pinned_abort_keeps_pending`): `:resume` after
+Before that fix the pending entries of frame 0 survived (`pinned_abort_keeps_pending`): `:resume` after
 `:abort` re-runs the aborted expression.
 -/
 set_option linter.unusedVariables false
@@ -129,7 +129,7 @@ example : BottomOK stopped := ⟨_, rfl, rfl, rfl, rfl, rfl, rfl, by simp⟩
 example : toplevelVars stopped = [("top", .int 10)] := rfl
 example : (abort stopped).m.frames.length = 1 := by decide
 
-/-- HEAD: `pop_to_toplevel` keeps frame 0's pending entries (and truncates its blocks), so the
+/-- Before the fix: `pop_to_toplevel` keeps frame 0's pending entries (and truncates its blocks), so the
 aborted `if` continuation is still there: not clean. -/
 theorem pinned_abort_keeps_pending :
     ((popToToplevel Cfg.pinned stopped.m).frames.map (fun f => f.exprs.length)) = [1] := by
